@@ -181,4 +181,21 @@ GraphProp! {delegate_impl [[G], G, Reversed<G>, access0]}
 NodeCount! {delegate_impl [[G], G, Reversed<G>, access0]}
 EdgeCount! {delegate_impl [[G], G, Reversed<G>, access0]}
 EdgeIndexable! {delegate_impl [[G], G, Reversed<G>, access0]}
-GetAdjacencyMatrix! {delegate_impl [[G], G, Reversed<G>, access0]}
+
+/// The adjacency matrix of the underlying graph is reused; `is_adjacent` queries it with
+/// the endpoints swapped, since `Reversed` has an edge from `a` to `b` exactly when the
+/// underlying graph has an edge from `b` to `a`.
+impl<G> GetAdjacencyMatrix for Reversed<G>
+where
+    G: GetAdjacencyMatrix,
+{
+    type AdjMatrix = G::AdjMatrix;
+
+    fn adjacency_matrix(&self) -> Self::AdjMatrix {
+        self.0.adjacency_matrix()
+    }
+
+    fn is_adjacent(&self, matrix: &Self::AdjMatrix, a: Self::NodeId, b: Self::NodeId) -> bool {
+        self.0.is_adjacent(matrix, b, a)
+    }
+}
